@@ -200,7 +200,18 @@ def _cls_np_raw_name(m, params):
     return m["actual_path"] == _raw_path(loc)
 
 
+def _cls_feedback_raw_path(m, params):
+    # D11 seen through C09: the path REPORTED BY A QUERY embeds a member name unescaped, so it cannot be fed back
+    loc = m.get("node_loc")
+    if m.get("check") != "refstore" or m.get("op") != "feedback" or not loc:
+        return False
+    if not any(st["k"] == "n" and _needs_escape(_name_of(st)) for st in loc):
+        return False
+    return m.get("actual_path") == _raw_path(loc)
+
+
 CLASSIFIERS = {
+    "feedback_raw_path": _cls_feedback_raw_path,
     "selector_major": _cls_selector_major,
     "np_raw_name": _cls_np_raw_name,
 }
@@ -414,6 +425,27 @@ def grammar_stage(ev, prop, mode, checks, tier, seed, timeout=3000):
             if i % max(1, summary["cases"] // 4) == 0 and len(ev.samples) < 8:
                 c = json.loads(line)
                 ev.samples.append({"sentence": "".join(map(chr, c["q"])), "kind": c["kind"], "recogniser_verdict": c["verdict"]})
+    return mism, cases
+
+
+def refstore_stage(ev, prop, tier, seed, timeout=3000):
+    """RefStore machine: histories of reads/writes through paths, replayed against reference/reference_mut."""
+    cases = os.path.join(WORK, f"{prop}-refstore-{os.getpid()}.cases")
+    r = run_tlc("RefStore", env={"VERIF_TIER": tier, "VERIF_SEED": str(seed)}, cases_path=cases, timeout=timeout)
+    if r.nreplay == 0:
+        raise ToolError("RefStore produced no histories (vacuous)")
+    ev.add_tlc("RefStore", r, "invariants LastWriteFrame DanglingIsNoop PathsInjective")
+    mism, summary = run_replay("replay", ["--checks", "refstore"], cases)
+    ev.traces += summary["cases"]
+    ev.evaluations += summary["cases"]
+    ev.distinct_nontrivial += summary["nonempty_expect"]
+    ev.extra.setdefault("per_check_cases", {}).update(summary.get("checks", {}))
+    with open(cases) as f:
+        for i, line in enumerate(f):
+            if i % max(1, summary["cases"] // 4) == 0 and len(ev.samples) < 8:
+                c = json.loads(line)
+                ev.samples.append({"doc": sval_to_json(c["doc"]),
+                                   "history": [f"{o['op']} {''.join(map(chr, o['path']))}" + (f" := {json.dumps(sval_to_json(o['value']))}" if o["op"] == "write" else "") + ("" if o["exists"] else "  (dangling)") for o in c["ops"]]})
     return mism, cases
 
 
